@@ -29,20 +29,42 @@ RULE = ("kind=lists (batches of 25): a list of 0..8 Transfer objects, each drive
         "legal state methods / field changes, remove through manager.remove, add incl. re-adding a removed identity, "
         "write through write_cache / store_data), optionally a restart between rounds and optionally unsaved changes "
         "after the last write; at every restart the shelf is read raw (cache.read) and loaded into a FRESH client "
-        "(load_data) and judged against the snapshot taken at the last write. kind=crash: two real clients with "
+        "(load_data) and judged against the snapshot taken at the last write. The harness plays the application: "
+        "it follows the list through the return of add()/remove() and TransferAddedEvent/TransferRemovedEvent, and "
+        "the snapshot of a write is the snapshot of THAT list; in part of the sub-cases the application persists on "
+        "change (a listener on both events calls write_cache(), synchronously or after / before 0-3 loop steps) and "
+        "the process ends after such a write without any other write (also a write that falls inside the "
+        "notification of a removal); removals whose task is cancelled while a suspending listener of "
+        "TransferRemovedEvent is awaited (the application was told: the transfer counts as removed). Writes that "
+        "are followed by a restart are in part done in the STORED FORMAT OF THE PINNED COMMIT, frozen in this "
+        "module as data (pickled attribute dict, state by value, key sha256(user+path+direction), pickle protocol "
+        "3 or 4, the older fixture layout for legacy records) without the class under test taking part - a cache "
+        "left behind by the previous version, incl. remotely_queued=True on QUEUED / INCOMPLETE downloads; three "
+        "written-out sub-cases of case 0 are the minimal forms (pinned-remotely-queued, persist-remove-end, "
+        "cancelled-removal). kind=crash: two real clients with "
         "shelve caches transfer 20-200 KB on the simulated net (optional bandwidth limits, optional one RST cut); at "
         "a seeded instant tied to a state edge (queued / initializing / transferring / incomplete / first complete / "
         "both complete / random) the victims (both, downloader, uploader) end: either write_cache() (the last "
         "periodic write), 0-5 s later all their tasks are cancelled, their connections reset and listeners closed "
-        "without stop(); or stop() (which writes the cache). New clients with the same names, ports, directories "
+        "without stop(); or stop() (which writes the cache). In part of the runs the last write is done in the "
+        "pinned stored format; the application persists on change (listener on TransferAdded/Removed/ProgressEvent "
+        "calling write_cache(), sync or suspending) and the process ends after the last listener write; the user "
+        "removes the download at the instant (remove() completes, or its task is cancelled inside the removal "
+        "notification and the client is then stopped). New clients with the same names, ports, directories "
         "and caches are started; the loaded managers are judged inside load_data(), the run continues for up to 2 "
         "virtual hours, the resumed download is checked like C04 (offset on the wire == local size, COMPLETE => "
         "file == source), and after the final stop() the caches are loaded once more into fresh managers. "
         "Non-trivial = at least one load was judged; distinct = (kind, multiset of (state, direction), history "
         "shape) resp. (end mode, victims, persisted states of both sides, cut).")
 ASSUMPTIONS = [
-    "the set 'written' is the manager's list at the last write; transfers are identified like the library's own "
-    "Transfer.__eq__ does (remote_path, username, direction)",
+    "the set 'written' is the application's view of the list at the last write: transfers returned by add() / "
+    "announced by TransferAddedEvent, minus those for which remove() returned or TransferRemovedEvent was emitted "
+    "('Emitted when a transfer has been detached from the client', 'Emits a TransferRemovedEvent after removal'); "
+    "transfers are identified like the library's own Transfer.__eq__ does (remote_path, username, direction)",
+    "a record in the stored format of the pinned commit is what a user upgrading the library has on disk: it must "
+    "load under the same rules (in particular remotely_queued cleared and the download scheduled again); when two "
+    "transfers of such a list share the pinned key (the fixed concatenation collision) the later one is the "
+    "stored one, as that commit's writer left it",
     "a transfer stored as DOWNLOADING/UPLOADING with bytes_transfered > filesize may be loaded COMPLETE or INCOMPLETE "
     "(the statement does not say); filesize None counts as 'not all bytes arrived'",
     "an UPLOAD stored as UPLOADING with bytes missing is loaded INCOMPLETE (a state documented as download-only): "
@@ -69,9 +91,15 @@ ASSUMPTIONS = [
 ]
 MIN_OBS = {
     'quick': {'lists_checked': 1800, 'transfers_compared': 5000, 'legacy_records': 300, 'collision_pairs': 150,
-              'fresh_checks': 3000, 'crash_runs': 50, 'crash_loads_judged': 80},
+              'fresh_checks': 3000, 'crash_runs': 50, 'crash_loads_judged': 80,
+              'foreign_records': 1500, 'foreign_remotely_queued_downloads': 120,
+              'writes_inside_removal_notification': 300, 'removals_cancelled_in_notification': 150,
+              'ends_after_listener_write': 400, 'user_removals_live': 10, 'crash_pinned_writes': 8},
     'thorough': {'lists_checked': 55000, 'transfers_compared': 150000, 'legacy_records': 9000,
-                 'collision_pairs': 4500, 'fresh_checks': 90000, 'crash_runs': 2700, 'crash_loads_judged': 4000},
+                 'collision_pairs': 4500, 'fresh_checks': 90000, 'crash_runs': 2700, 'crash_loads_judged': 4000,
+                 'foreign_records': 100000, 'foreign_remotely_queued_downloads': 8000,
+                 'writes_inside_removal_notification': 20000, 'removals_cancelled_in_notification': 10000,
+                 'ends_after_listener_write': 30000, 'user_removals_live': 1000, 'crash_pinned_writes': 400},
 }
 SHARD_TIMEOUT = {'quick': 900, 'thorough': 7200}
 WHAT_FAILS = {
